@@ -409,6 +409,10 @@ class Lexer:
                 display_col_length=True,
                 col_length=True,
             )
+        if command[2].token_type != TokenType.PAREN_ROUND:
+            raise JMCSyntaxException(
+                "Expected round bracket, `()`", command[2], tokenizer
+            )
         if is_save_to_datapack and command[2].string != "()":
             raise JMCSyntaxException(
                 "Expected empty round bracket, `()`", command[2], tokenizer
